@@ -200,6 +200,10 @@ def build_case(rnd, model_source=None):
         e = textmut.deep_expression(rnd, d)
         text = "enum Ee:\n  AA = 1\nstruct Foo:\n  0 [+1]  UInt  x\n  let y = %s\n  if %s == 0:\n    1 [+1]  UInt  z\n" % (e, e)
         return "deep-expression", {"m.emb": text}, "m.emb"
+    if rnd.random() < 0.3:
+        from embgen import semgen
+
+        return semgen.import_pair(rnd)
     return model_source(rnd)
 
 
